@@ -908,6 +908,14 @@ def endBlock (s : State) : State :=
     | none => s) s
   { s with height := s.height + 1 }
 
+/-- `MessageSubsidy.Check` (address, opcode length — nothing about `ChainId`) and `HandleMessageSubsidy` (no committee is
+retired in this model): sender → `PoolAdd(msg.ChainId, amount)`, whatever pool that id denotes -/
+def subsidy (s : State) (a : Bytes) (poolId amount : Nat) (opcode : Bytes) : M State := do
+  checkAddress a
+  if opcode.length > 100 then throw .InvalidOpcode
+  let s ← accountSub s a amount
+  pure (poolAdd s poolId amount)
+
 /-! ## operations and the step function (what the driver runs, what the theorems quantify over) -/
 
 inductive Op
@@ -918,6 +926,8 @@ inductive Op
   /-- harness set-up, not a chain operation: store a next batch (`SetDexBatch`) and mint its pending amounts into
   the holding pool (`PoolAdd`) — used to start a case with a batch near the per-batch caps -/
   | seedNext (chain : Nat) (b : Batch)
+  /-- `MessageSubsidy.Check` + `HandleMessageSubsidy`: `ChainId` is NOT validated; the amount goes to `pools[ChainId]` -/
+  | subsidy (a : Bytes) (poolId : Nat) (amount : Nat) (opcode : Bytes)
   | create (m : CreateOrder)
   | edit (m : EditOrder)
   | delete (chain : Nat) (id : Bytes)
@@ -935,6 +945,7 @@ def apply (s : State) : Op → M State
   | .fund a n => accountAdd s a n
   | .setPool id p => .ok (setPool s id p)
   | .seedNext c b => .ok (setNext (poolAdd s (holdingId c) b.pending) c b)
+  | .subsidy a id n op => subsidy s a id n op
   | .create m => createOrder s m
   | .edit m => editOrder s m
   | .delete c id => deleteOrderMsg s c id
